@@ -8,7 +8,20 @@ From PV Require Import Lib.Base Lib.Utf8 Syntax.RGrammar Syntax.Code Model.PStat
 From Coq Require Import String.
 Local Open Scope nat_scope.
 
+(* Quirk switches: one boolean per defect of the pinned tree that lives in the run
+   time (DESIGN.md 3.5).  [true] = behave like the code ([faithful], validated by the
+   correspondence runs); [false] = the locally repaired behaviour. *)
+Record quirks := mkQuirks {
+  q_lit_eof : bool;        (* a literal rune U+FFFD "matches" at EOF without consuming *)
+  q_stale_ctx : bool;      (* &{} !{} #{} blocks see c.pos / c.text of the last action *)
+  q_recover_scope : bool;  (* a recovery expression run by a throw shares the thrower's label scope *)
+  q_memo_nocharge : bool   (* memo hits are not charged to the expression budget *)
+}.
+Definition faithful : quirks := mkQuirks true true true true.
+Definition repaired : quirks := mkQuirks false false false false.
+
 Record cfg := mkCfg {
+  cQ : quirks;
   cU : ulib;
   cT : tmpl;
   cO : options;
@@ -250,7 +263,8 @@ Section Step.
       | w :: rs' =>
           let cur := sp_rn (pt s) in
           let cur := if ic then to_lower (cU c) cur else cur in
-          if Z.eqb cur w then lit_loop ic want start rs' (read c s)
+          if Z.eqb cur w && (q_lit_eof (cQ c) || negb (is_eof s))
+          then lit_loop ic want start rs' (read c s)
           else Ok (VNil, false) (restore start (failAt false (sp_pos start) want s))
       end.
 
@@ -271,7 +285,12 @@ Section Step.
       ret (actVal, true)
     else ret (v, ok).
 
+  Definition fresh_ctx : M unit :=
+    modify (fun s => if q_stale_ctx (cQ c) then s
+                     else set_cur_text [] (set_cur_pos (sp_pos (pt s)) s)).
+
   Definition parseCodePred (k : bkind) (neg : bool) (id : cid) : M (val * bool) :=
+    fresh_ctx ;;;
     saved <- (fun s => let '(x, s') := cloneState c s in Ok x s') ;;
     r <- run_code c k id (ce_pred (cE c)) ;;
     let '(ok, err) := r in
@@ -280,6 +299,7 @@ Section Step.
     ret (VNil, if neg then negb ok else ok).
 
   Definition parseStateCodeExpr (id : cid) : M (val * bool) :=
+    fresh_ctx ;;;
     r <- run_code c KState id (ce_state (cE c)) ;;
     let '(_, err) := r in
     modify (fun s => match err with Some m => addErr c m s | None => s end) ;;;
@@ -376,7 +396,9 @@ Section Step.
     | [] => ret (VNil, false)
     | (ls, rc) :: stack' =>
         if mem_bytes l ls then
+          (if q_recover_scope (cQ c) then ret tt else modify pushV) ;;;
           r <- wrap rc ;;
+          (if q_recover_scope (cQ c) then ret tt else modify popV) ;;;
           if snd r then ret r else throw_loop l stack'
         else throw_loop l stack'
     end.
@@ -503,7 +525,13 @@ Section Step.
     if active then
       fun s =>
         match getMemoized (KExpr (node_id e)) s with
-        | Some res => Ok (rt_v res, rt_b res) (restore (rt_end res) s)
+        | Some res =>
+            if q_memo_nocharge (cQ c) then Ok (rt_v res, rt_b res) (restore (rt_end res) s)
+            else
+              let s1 := set_exprCnt (exprCnt s + 1)%N s in
+              if negb (N.eqb (o_maxexpr (cO c)) 0) && N.ltb (o_maxexpr (cO c)) (exprCnt s1)
+              then Panic msg_max_expr s1
+              else Ok (rt_v res, rt_b res) (restore (rt_end res) s1)
         | None =>
             let p := pt s in
             (r <- parseExpr e ;;
